@@ -5,6 +5,7 @@ import (
 	"errors"
 	"fmt"
 	"io"
+	iofs "io/fs"
 	"os"
 	"path/filepath"
 	"reflect"
@@ -188,6 +189,21 @@ func (r *Runner) Exec(t []string) string {
 			return infoLine(fi)
 		case "h.sync":
 			return fsErr(h.Sync())
+		case "h.readdirfs": // the io/fs ReadDir method of the handle (where it has one): names and types of the entries
+			rd, ok := h.(iofs.ReadDirFile)
+			if !ok {
+				return "err:inval"
+			}
+			es, err := rd.ReadDir(atoi(t[2]))
+			var ns []string
+			for _, e := range es {
+				k := "/f"
+				if e.IsDir() {
+					k = "/d"
+				}
+				ns = append(ns, corr.HexS(e.Name())+k+fmt.Sprint(e.Type()))
+			}
+			return "entries=" + strings.Join(ns, ",") + " err:" + ErrClass(err)
 		case "h.copyfrom": // io.Copy(handle k, at most n bytes of handle j): io.ReaderFrom of k if it has it, Read on j and Write on k otherwise
 			hj := atoi(t[2])
 			if hj >= len(r.H) {
